@@ -102,6 +102,10 @@ func run(name string, seedV int64, nV int, tierV, outV, statsV, replayV, modeV s
 			if *tier == "thorough" {
 				limit = 40 * time.Minute
 			}
+			if needBubble[name] {
+				// under the fake clock a timer fires as soon as every goroutine is blocked: no wall-clock watchdog there
+				limit = 1 << 62
+			}
 			var c int
 			var fails []string
 			select {
